@@ -90,21 +90,27 @@ def run_case(case, fail, stats):
         A = np.array(case["A"], dtype=float)
         svd = SVD(A)
         stats["lstsq_seq_cases"] = stats.get("lstsq_seq_cases", 0) + 1
-        k = len(svd.s)
+        # the reference uses the factors as they were BEFORE any solve: a solve must not change the stored decomposition
+        U0, s0, Vh0 = svd.U.copy(), svd.s.copy(), svd.Vh.copy()
+        rcond0 = svd.rcond
+        k = len(s0)
         for b, rcond, cutoff in case["calls"]:
             b = np.array(b, dtype=float)
             kw = {}
             if rcond is not None:
                 kw["rcond"] = rcond
             x = svd.lstsq(b, sing_val_cutoff=cutoff, **kw)
-            rc = svd.rcond if rcond is None else rcond
+            if not (np.array_equal(svd.s, s0) and np.array_equal(svd.U, U0) and np.array_equal(svd.Vh, Vh0)):
+                stats["stored_factors_changed"] = stats.get("stored_factors_changed", 0) + 1     # not a verdict by itself
+            rc = rcond0 if rcond is None else rcond
             cut = k if cutoff is None else cutoff
-            s = svd.s.copy()
+            s = s0
             keep = np.zeros(k, dtype=bool)
             keep[:cut] = True
             keep &= s > 0
-            keep &= ~(s < rc * s[0])
-            At = (svd.U[:, keep] * s[keep]) @ svd.Vh[keep, :]
+            if rc is not None:
+                keep &= ~(s < rc * s[0])
+            At = (U0[:, keep] * s[keep]) @ Vh0[keep, :]
             xref = np.linalg.pinv(At, rcond=1e-15) @ b if keep.any() else np.zeros(A.shape[1])
             scale = max(1.0, float(np.max(np.abs(xref))) if xref.size else 1.0)
             cond = float(s[keep].max() / s[keep].min()) if keep.any() else 1.0
